@@ -1141,6 +1141,12 @@ func (a *Activation) typeAssert(in *ssa.TypeAssert, st *State) Val {
 	AT := in.AssertedType
 	var ok string
 	var v Val
+	if _, isTP := types.Unalias(AT).(*types.TypeParam); isTP && in.CommaOk {
+		// assertion to the type parameter: whether it succeeds depends on the instantiation; the value is the payload
+		okc := t.fresh("tpassert", "Bool")
+		val := Val{K: KOpaque, T: AT, S: sIte(okc, sApp(t.ifVal(), x.S), t.declare("zero$T", "Int"))}
+		return Val{K: KTuple, T: in.Type(), Fields: []Val{val, boolVal(okc)}}
+	}
 	if _, isIface := AT.Underlying().(*types.Interface); isIface {
 		if _, isTP := types.Unalias(AT).(*types.TypeParam); isTP {
 			t.errorf("%s: type assertion to type parameter outside the subset", a.fn)
@@ -1159,6 +1165,10 @@ func (a *Activation) typeAssert(in *ssa.TypeAssert, st *State) Val {
 			}
 		}
 		v = t.unbox(st, x, AT)
+		if _, isPtr := AT.Underlying().(*types.Pointer); isPtr && in.CommaOk {
+			t.assumed["typed-nil pointers inside interface values are not considered (a successful type assertion to a pointer type yields a non-nil pointer)"] = true
+			t.assume(st.pc, sImp(ok, sNot(sEq(v.S, "0"))))
+		}
 	}
 	if in.CommaOk {
 		// when not ok the value is the zero value
